@@ -764,9 +764,11 @@ class WaveSpectrum(DatasetWrapper):
 
     @staticmethod
     def _spread(a1: xarray.DataArray, b1: xarray.DataArray) -> xarray.DataArray:
-        return xarray.DataArray(
-            np.sqrt(2 - 2 * np.sqrt(a1**2 + b1**2)) * 180 / np.pi
-        )
+        radius = np.sqrt(a1**2 + b1**2)
+        # Round-off can push the radius of a unidirectional sea marginally above 1,
+        # which would turn a zero spread into NaN.
+        radius = xarray.where((radius > 1) & (radius < 1 + 1e-12), 1.0, radius)
+        return xarray.DataArray(np.sqrt(2 - 2 * radius) * 180 / np.pi)
 
     @property
     def mean_direction_per_frequency(self) -> xarray.DataArray:
